@@ -226,7 +226,7 @@ def compare_model(ctx, jm, m_in, m_out):
   return diffs
 
 
-PRELUDE = '''From VF Require Import Base.Prelude Gen.Enums Model.Graph Model.Insts Model.Perform Spec.WFb Proofs.SemRun.
+PRELUDE = '''From VF Require Import Base.Prelude Gen.Enums Model.Graph Model.Insts Model.Perform Spec.WFb Spec.Interleave.
 Open Scope Z_scope.
 Definition run_case (c : model * list ttp) : list Z :=
   let r1 := insts_of_params (fst c) (snd c) in
